@@ -145,7 +145,7 @@ func genCfg(rnd *tr.Rand, focus string) *caseCfg {
 		case "readfrom-after-spill":
 			// a backlog spilled into the list part of the outbound buffer, a partial drain, then ReadFrom + Flush
 			c.sndbuf, c.wbufcap = 4096, 1024
-		case "onopen-big-reply":
+		case "onopen-big-reply", "onopen-big-reply-shutdown":
 			c.sndbuf = 4096
 		case "accept-fatal":
 			// the third accept4 fails with EMFILE: the loop gives up (ErrAcceptSocket) while it owns two open
@@ -1069,6 +1069,20 @@ func runCase(w *tr.Writer, seed uint64, idx int, focus string) {
 			// C18: no failure on one connection may take the engine down; only a Shutdown action, a stop
 			// request or a fatal accept error ends Run
 			rec.Fail("engine-exit", "unasked", "Run returned although no callback returned Shutdown, nobody called Stop and accept did not fail fatally")
+		}
+	}
+	if !engineDown() {
+		rec.mu.Lock()
+		asked := rec.shutdownAsked
+		rec.mu.Unlock()
+		if asked && !cfg.client {
+			// C06: a Shutdown action returned by a callback makes Run return, whatever else that callback did
+			for t0 := time.Now(); !engineDown() && time.Since(t0) < 3*time.Second; {
+				time.Sleep(2 * time.Millisecond)
+			}
+			if !engineDown() {
+				rec.Fail("shutdown", "action-ignored", "a callback returned Shutdown but the engine was still running 3 s later")
+			}
 		}
 	}
 	if !engineDown() {
